@@ -683,6 +683,9 @@ package block
 //@                       && sdi.arg1 == hexstr(CommitTxs(TxsId(iv.arg1.Data.Txs)))
 //@   ensures [emit-genuine-only] sendCount("dataInCh") <= 1 && (sendCount("dataInCh") == 1 ==> iv && iv.res0 && sent("dataInCh").DAHeight == daHeight)
 //@   ensures [emit-unseen] iv && iv.res0 && !m.dataCache.seen[hexstr(CommitTxs(TxsId(iv.arg1.Data.Txs)))] && !ctxDone(ctx) ==> sendCount("dataInCh") == 1
+//@   observe pu := call Unmarshal
+//@   observe fpd := call FromProto
+//@   ensures [mark-every-genuine] !sdi ==> (pu && pu.res0 != nil) || (fpd && fpd.res0 != nil) || len(signedData.Data.Txs) == 0 || signedData.Data.Metadata == nil || (iv && !iv.res0)
 
 //@ func (m *Manager) processNextDAHeaderAndData(ctx) (err)
 //@   property C09
